@@ -21,6 +21,7 @@ import (
 type kase struct {
 	Universe string    `json:"universe"` // "bfs:<tier>" or "limit:<shape>:<n>:<order>"
 	Ops      []pool.Op `json:"ops"`
+	Alt      []pool.Op `json:"alt,omitempty"` // differential cases: the other insertion order of the same set
 	Text     string    `json:"text,omitempty"`
 }
 
@@ -436,6 +437,7 @@ func run(c *fw.Ctx) {
 	t0 := time.Now()
 	deferred = []func(){}
 	limits(c)
+	mixed(c)
 	t1 := time.Now()
 	var desc []string
 	for pi, ps := range passes(c.Tier) {
@@ -493,6 +495,9 @@ func envFor(name string) (*pool.Env, bool) {
 		u, _, _ := bfsUniverse(tier)
 		u.Name = name
 		return pool.NewEnv(u), false
+	case "mixed":
+		pool.SetHeight(20)
+		return pool.NewEnv(mixedUniverse()), false
 	case "limit":
 		var n int
 		fmt.Sscan(p[2], &n)
@@ -517,6 +522,10 @@ func replay(c *fw.Ctx, raw json.RawMessage) {
 		panic(err)
 	}
 	env, expiry := envFor(k.Universe)
+	if len(k.Alt) > 0 {
+		replayDiff(c, env, k)
+		return
+	}
 	at, fs := runHistory(env, k.Ops, expiry)
 	fmt.Printf("replay: universe %s, history: %s\n", k.Universe, pool.HistString(env.U, k.Ops))
 	seen := map[string]bool{}
